@@ -239,8 +239,11 @@ def build_diploid(rng, d, params):
     barcodes = [f"BC{k:02d}-1" for k in range(rng.randint(2, 5))]
     for s in names:
         for c in sc.chroms:
-            rs = synth.simulate_reads(rng, sc, s, c, rng.randint(6, 12), len_range=(60, 260),
-                                      paired_fraction=0.2)
+            deep = params.get("deep", False)
+            rs = synth.simulate_reads(rng, sc, s, c, rng.randint(30, 60) if deep else rng.randint(6, 12),
+                                      len_range=(60, 260), paired_fraction=0.2)
+            if deep:
+                rs = noisy_reads(rng, rs, error_rate=0.02)
             for r in rs:
                 if rng.random() < 0.75:
                     r["tags"] = [("BX", rng.choice(barcodes))]
@@ -319,6 +322,27 @@ def build_diploid(rng, d, params):
             feat=feat),
         Job("unphase", "unphase", [f["phased"]], {"vcf": ("stdout", V)}, feat=feat),
     ]
+    # every job family additionally gets options that move a divisor / threshold / cutoff (chosen per scenario)
+    sweeps = {
+        "phase": [["--internal-downsampling", [2, 3, 5, 7, 15]], ["--mapping-quality", [0, 20, 60]]],
+        "phase-ped": [["--internal-downsampling", [4, 5, 7, 8, 10]], ["--recombrate", [0.5, 1.26, 10]]],
+        "phase-ped-samples-distrust": [["--internal-downsampling", [4, 5, 7, 8, 10]], ["--default-gq", [10, 30]]],
+        "genotype": [["--max-coverage", [2, 3, 5, 7, 15]], ["--gt-qual-threshold", [0, 10, 30]]],
+        "genotype-ped": [["--max-coverage", [4, 5, 7, 8, 10]], ["--gt-qual-threshold", [0, 10]]],
+        "haplotag": [["--linked-read-distance-cutoff", [50, 150, 400, 50000]]],
+        "haplotagphase": [["--gap-threshold", [50, 70, 90]], ["--cut-poly", [2, 5, 10]]],
+    }
+    for j in jobs:
+        extra = []
+        for opt, values in sweeps.get(j.name, []):
+            if rng.random() < 0.8:
+                extra += [opt, str(rng.choice(values))]
+        if j.name in ("stats", "compare") and rng.random() < 0.4:
+            extra.append("--only-snvs")
+        if j.name == "split" and rng.random() < 0.4:
+            extra.append("--only-largest-block")
+        j.args = extra + j.args
+        j.feat = dict(j.feat, options=" ".join(extra))
     return jobs
 
 
@@ -387,8 +411,10 @@ def build_polyploid(rng, d, params):
     args = ["--ploidy", str(ploidy), "--reference", os.path.join(d, "ref.fa"), "-o", "{out}/out.vcf", vcf, bam]
     jobs = [Job("polyphase", "polyphase", args, {"vcf": ("out.vcf", "text")}, dims=("threads",), feat=feat)]
     if params.get("b0"):
-        jobs.append(Job("polyphase-B0", "polyphase", ["-B", "0"] + args, {"vcf": ("out.vcf", "text")}, dims=("threads",),
-                        feat=feat))
+        sens = str(rng.choice([0, 1, 2, 3, 5]))
+        ovl = str(rng.choice([2, 3]))
+        jobs.append(Job("polyphase-B0", "polyphase", ["-B", sens, "--min-overlap", ovl] + args,
+                        {"vcf": ("out.vcf", "text")}, dims=("threads",), feat=dict(feat, options=f"-B {sens} --min-overlap {ovl}")))
     return jobs
 
 
@@ -509,7 +535,63 @@ def build_ped_changes(rng, d, params):
                 feat=dict(nsamples=3, ped=True, use_ped_samples=True))]
 
 
-BUILDERS = {"ped-changes": build_ped_changes, "diploid": build_diploid, "polyploid": build_polyploid, "linked-stress": build_linked_stress,
+def noisy_reads(rng, reads, error_rate=0.03, quals=(8, 15, 22, 30, 38)):
+    """sequencing errors (substitutions; the CIGAR is kept) and mixed per-base qualities on error-free reads"""
+    from array import array
+    out = []
+    for r in reads:
+        seq = list(r["seq"])
+        for i in range(len(seq)):
+            if rng.random() < error_rate:
+                seq[i] = rng.choice([b for b in "ACGT" if b != seq[i]])
+        q = array("B", [rng.choice(quals) for _ in seq])
+        out.append(dict(r, seq="".join(seq), qual=q))
+    return out
+
+
+def build_ped_coverage(rng, d, params):
+    """A trio or quartet with DEEP noisy reads (far more coverage per sample than any per-sample share of
+    the coverage budget, so read selection must drop reads); the coverage budget (--max-coverage /
+    --internal-downsampling) is swept over values that are and are not divisible by the family size."""
+    os.makedirs(d, exist_ok=True)
+    nchildren = params.get("children", 1)
+    used = set()
+    names = [_rand_name(rng, used) for _ in range(2 + nchildren)]
+    fa, mo, kids = names[0], names[1], names[2:]
+    order = list(names)
+    rng.shuffle(order)              # column order of the VCF
+    nvars = params.get("nvars", 14)
+    sc = synth.make_scenario(rng, nchrom=1, nsamples=len(names), nvars=nvars, kinds=("snv",), het_fraction=0.7,
+                             sample_names=order, min_gap=14)
+    c = sc.chroms[0]
+    for k in kids:
+        sc.haps[k][c], _ = synth.inherit(rng, sc.haps[fa][c], sc.haps[mo][c], recomb_prob=0.05)
+    ref = synth.write_fasta(sc, os.path.join(d, "ref.fa"))
+    vcf = synth.write_vcf(sc, os.path.join(d, "in.vcf"))
+    trios = [(k, fa, mo) for k in kids]
+    rng.shuffle(trios)
+    ped = synth.write_ped(os.path.join(d, "family.ped"), trios)
+    reads = []
+    for s in names:
+        reads += noisy_reads(rng, synth.simulate_reads(rng, sc, s, c, params.get("reads", 110), len_range=(90, 320)),
+                             error_rate=params.get("error_rate", 0.03))
+    bam = synth.write_bam(sc, reads, os.path.join(d, "reads.bam"))
+    feat = dict(nsamples=len(names), ped=True, deep=True, family=len(names))
+    jobs = []
+    for cov in params.get("coverages", [4, 5, 7, 8, 16, 17]):
+        jobs.append(Job(f"genotype-ped-H{cov}", "genotype",
+                        ["--reference", ref, "-o", "{out}/out.vcf", "--ped", ped, "--max-coverage", str(cov), vcf, bam],
+                        {"vcf": ("out.vcf", "text")}, feat=dict(feat, max_coverage=cov)))
+    for cov in params.get("phase_coverages", [5, 7]):
+        jobs.append(Job(f"phase-ped-D{cov}", "phase",
+                        ["--reference", ref, "-o", "{out}/out.vcf", "--ped", ped, "--internal-downsampling", str(cov),
+                         "--output-read-list", "{out}/readlist.tsv", vcf, bam],
+                        {"vcf": ("out.vcf", "text"), "read-list": ("readlist.tsv", "text")},
+                        feat=dict(feat, max_coverage=cov)))
+    return jobs
+
+
+BUILDERS = {"ped-coverage": build_ped_coverage, "ped-changes": build_ped_changes, "diploid": build_diploid, "polyploid": build_polyploid, "linked-stress": build_linked_stress,
             "shared-barcode": build_shared_barcode, "undeclared-info": build_undeclared_info}
 
 
